@@ -1,6 +1,6 @@
 """plan.py - what each property's check runs, per tier (see DESIGN.md section 5)."""
 
-BUDGET = {'quick': 240.0, 'thorough': 900.0}
+BUDGET = {'quick': 300.0, 'thorough': 900.0}
 
 DEFAULT_RULE = ('vrt: every execution is one schedule of the real code under the serialising scheduler, enumerated depth-first up to the '
                 'stated deviation bound (preemptions, early timer, value choices) with an HB-prefix cache; states = distinct '
